@@ -3,6 +3,7 @@ CONSTANTS
   Dev = {}
   MaxOps = 2
   OptSet = "quick"
+  Focus = "all"
   EmitReplay = TRUE
 INVARIANTS WF ObsInv MergeIsJointBuild InitialMergeIsJointBuild DeleteIsBuildOfRest WeedPartition Emit
 CHECK_DEADLOCK FALSE
